@@ -82,22 +82,20 @@ def main():
             report["demo"] = "no `place at` header"
     sh("git checkout -- . && git clean -fdq -e target", cwd=WT)
     report["confirmed"] = (not lost) and bool(demo_ok)
-    # ---- run the checks against the change applied to /repo
+    # ---- run the checks against the change applied in the scratch worktree (VERIF_REPO = self-test mode:
+    # separate harness build, work and evidence directories; /repo itself is not touched)
     caught = {}
-    rc, out = sh("git -C /repo status --porcelain")
-    if out.strip():
-        print("/repo is not clean; refusing"); return 2
-    rc, out = sh("git -C /repo apply %s" % patch)
+    rc, out = sh("git apply %s" % patch, cwd=WT)
     try:
         for c in checks:
             t0 = time.time()
-            rc, out = sh("./check %s" % c, cwd=VERIF, timeout=3600)
+            rc, out = sh("./check %s" % c, cwd=VERIF, timeout=3600, env={"VERIF_REPO": WT})
             vio = [l for l in out.split("\n") if l.startswith("VIOLATION")]
             caught[c] = {"exit": rc, "violation_lines": vio, "wall_s": round(time.time() - t0, 1),
                          "why": [l for l in out.split("\n") if l.startswith("# ")][:2]}
-            report["ran"].append("./check %s with the change applied to /repo: exit %d" % (c, rc))
+            report["ran"].append("VERIF_REPO=<scratch worktree with the change> ./check %s: exit %d" % (c, rc))
     finally:
-        sh("git -C /repo checkout -- . && git -C /repo clean -fdq")
+        sh("git checkout -- . && git clean -fdq -e target", cwd=WT)
     report["caught_by"] = [c for c in caught if caught[c]["exit"] == 1 and caught[c]["violation_lines"]]
     report["checks"] = caught
     out_dir = os.path.join(VERIF, "seeded", name)
